@@ -79,6 +79,8 @@ var targets = []target{
 
 // structs are translated as their INTEGER PROJECTION: the integer and boolean fields only (a method that
 // touches another field is unsupported)
+var dirOf = map[string]string{"share": "share", "inclusion": "inclusion", "square": "."}
+
 var structTargets = []target{{"share", "", "CompactShareCounter"}, {"share", "", "Range"}, {".", "", "Builder"}, {".", "", "Element"}}
 
 type pkgInfo struct {
@@ -102,6 +104,7 @@ type tr struct {
 	recvTy  string
 	results int  // number of Go results
 	isPtr   bool // pointer receiver: results are prefixed by the receiver
+	deps    []target // functions of the library this one calls (emitted first, on demand)
 }
 
 func main() {
@@ -152,39 +155,53 @@ func main() {
 		}
 		out.WriteString(s)
 	}
-	var bad []string
-	for _, tg := range targets {
+	// every target, preceded by the library functions it calls (translated on demand, once)
+	emitted := map[string]error{}
+	var emit func(tg target) error
+	emit = func(tg target) error {
 		p := pkgs[tg.dir]
 		if p == nil {
-			out.WriteString(fmt.Sprintf("-- UNSUPPORTED %s/%s: package not found\n", tg.dir, tg.name))
-			continue
+			return fmt.Errorf("package %s not found", tg.dir)
 		}
-		fd := findFunc(p, tg.recv, tg.name)
 		lname := p.name + "." + tg.name
 		if tg.recv != "" {
 			lname = p.name + "." + tg.recv + "." + tg.name
 		}
-		if fd == nil {
-			out.WriteString(fmt.Sprintf("-- UNSUPPORTED %s: function not found in the source\n", lname))
-			bad = append(bad, lname)
-			continue
+		if e, ok := emitted[lname]; ok {
+			return e
 		}
-		s, err := transFunc(p, fset, fd, lname)
+		emitted[lname] = fmt.Errorf("recursive")
+		var err error
+		var text string
+		var deps []target
+		fd := findFunc(p, tg.recv, tg.name)
+		if fd == nil {
+			err = fmt.Errorf("function not found in the source")
+		} else {
+			text, deps, err = transFunc(p, fset, fd, lname)
+		}
 		if err == nil {
-			// a definition that calls an unsupported one cannot be emitted either
-			for _, b := range bad {
-				if strings.Contains(s, "("+b+" ") || strings.Contains(s, "("+b+")") {
-					err = fmt.Errorf("calls %s, which is unsupported", b)
+			for _, d := range deps {
+				if d.dir == tg.dir && d.recv == tg.recv && d.name == tg.name {
+					err = fmt.Errorf("recursive function")
+					break
+				}
+				if e := emit(d); e != nil {
+					err = fmt.Errorf("calls %s, which is unsupported", d.name)
 					break
 				}
 			}
 		}
 		if err != nil {
 			out.WriteString(fmt.Sprintf("-- UNSUPPORTED %s: %v\n", lname, err))
-			bad = append(bad, lname)
-			continue
+		} else {
+			out.WriteString(text)
 		}
-		out.WriteString(s)
+		emitted[lname] = err
+		return err
+	}
+	for _, tg := range targets {
+		emit(tg)
 	}
 	out.WriteString("end GoSquare.Src\n")
 	fmt.Print(out.String())
@@ -352,7 +369,7 @@ func pow2(n int) string {
 
 // ---------------------------------------------------------------- functions
 
-func transFunc(p *pkgInfo, fset *token.FileSet, fd *ast.FuncDecl, lname string) (s string, err error) {
+func transFunc(p *pkgInfo, fset *token.FileSet, fd *ast.FuncDecl, lname string) (s string, deps []target, err error) {
 	defer func() {
 		if r := recover(); r != nil {
 			if u, ok := r.(unsupported); ok {
@@ -433,7 +450,7 @@ func transFunc(p *pkgInfo, fset *token.FileSet, fd *ast.FuncDecl, lname string) 
 		b.WriteString(a)
 	}
 	fmt.Fprintf(&b, "def %s %s : %s :=\n  %s%s\n", lname, strings.Join(params, " "), resTy, prelude, body)
-	return b.String(), nil
+	return b.String(), t.deps, nil
 }
 
 func zero(t types.Type) string {
@@ -953,6 +970,7 @@ func (t *tr) call(e *ast.CallExpr) string {
 			for _, a := range e.Args {
 				args = append(args, t.expr(a))
 			}
+			t.deps = append(t.deps, target{dirOf[t.p.name], "", fname})
 			return fmt.Sprintf("(%s.%s %s)", t.p.name, fname, strings.Join(args, " "))
 		}
 		fail("call of %s", fname)
@@ -962,6 +980,7 @@ func (t *tr) call(e *ast.CallExpr) string {
 				for _, a := range e.Args {
 					args = append(args, t.expr(a))
 				}
+				t.deps = append(t.deps, target{dirOf[t.p.name], "", id.Name})
 				return fmt.Sprintf("(%s.%s %s)", t.p.name, id.Name, strings.Join(args, " "))
 			}
 		}
@@ -979,6 +998,7 @@ func (t *tr) call(e *ast.CallExpr) string {
 					for _, a := range e.Args {
 						args = append(args, t.expr(a))
 					}
+					t.deps = append(t.deps, target{dirOf[pn.Imported().Name()], "", f.Sel.Name})
 					return fmt.Sprintf("(%s.%s %s)", pn.Imported().Name(), f.Sel.Name, strings.Join(args, " "))
 				}
 				fail("call of %s.%s", path, f.Sel.Name)
@@ -995,6 +1015,7 @@ func (t *tr) call(e *ast.CallExpr) string {
 				for _, a := range e.Args {
 					args = append(args, t.expr(a))
 				}
+				t.deps = append(t.deps, target{dirOf[n.Obj().Pkg().Name()], n.Obj().Name(), f.Sel.Name})
 				return fmt.Sprintf("(%s.%s.%s %s)", n.Obj().Pkg().Name(), n.Obj().Name(), f.Sel.Name, strings.Join(args, " "))
 			}
 		}
